@@ -21,7 +21,6 @@ INVARIANT T1_FullExpr
 INVARIANT T2_DepSound
 INVARIANT T3_DepBounds
 INVARIANT T4_Remove
-INVARIANT T4b_FixedRemove
 INVARIANT T5_Reassign
 INVARIANT T6_Subs
 INVARIANT T7_Used
